@@ -1232,7 +1232,7 @@ impl Engine for ProofX {
                 }
                 cases.sort_by_key(|c| c["bound"].as_u64().unwrap());
                 let mut p = Plan::new(cases, format!("proofx: every key set S of ≤{smax} keys from a 12-key family (diverging at bits 0,1,2,6,7,12,255 + a 4-cluster sharing 20 bits) × every non-empty query set Q of ≤{qmax} family keys (present and absent; honest path proofs from the independent reference trie, de-duplicated, ordered) aggregated by MultiProof::from_path_proofs × every sorted write set of ≤{wmax} operations (delete / write) over the keys in scope; oracle: multi-proof verifies, every confirm_* (also _with_index for every index, find_index_for) equals the single-path answer and the truth, verify_multi_proof_update = verify_update = reference root of the updated set. Plus 'wide' cases: a 20-key family minus every subset of ≤2 (thorough ≤3) keys, all 20 keys queried at once (up to 20 terminals in one multi-proof), every write set of 1..2 operations anywhere (written terminals separated by 0..18 untouched ones). One case = one S; bound = |S| (wide: number of removed keys); transitions = (S,Q) and (S,Q,W) combinations checked."));
-                p.budget_s = if thorough { 1700 } else { 45 };
+                p.budget_s = if thorough { 1700 } else { 55 };
                 p.assumptions = vec!["Blake3 hasher; key family of 12; value hashes from two classes per key".into()];
                 p
             }
@@ -1243,7 +1243,7 @@ impl Engine for ProofX {
                     .map(|(m, k)| json!({"mode": "c08", "s": m, "bound": k, "qmax": qmax, "wmax": wmax, "two_step": thorough && k <= 2}))
                     .collect();
                 let mut p = Plan::new(cases, format!("proofx: for every key set S of ≤{smax} keys from the 12-key family: every honest PathProof (verified with each of the 12 family keys as lookup key; mutants with 3 lookup keys) and every honest MultiProof over ≤{qmax} queries, and every object one step of the mutation grammar away (sibling bit flips at bits 0/7/255, sibling replaced by every node of a pool [terminator, every sibling/root of this trie and of the 12 tries differing in one key, every leaf hash over the family], deleted/duplicated/swapped siblings, every truncation (sibling positions: all for proofs of ≤24 siblings, the first 8 + middle + last 4 for deeper ones), extension/prepending by every pool node, terminal leaf<->terminator, leaf key/value replaced by every other family leaf, terminator depth ±1/extremes and altered path, multi depth ±1, paths dropped/duplicated/swapped/prefix-related, whole-object and part-wise cross-splicing with the neighbour tries; two steps for |S|≤2 in the thorough tier); every accepted object (verify == Ok against the honest root) must confirm only true value / non-existence statements about the 12 keys + 1 outside probe × 2 value classes, and every update verified through it over every write set of ≤{wmax} ops must return Err or the reference root. One case = one S."));
-                p.budget_s = if thorough { 1700 } else { 45 };
+                p.budget_s = if thorough { 1700 } else { 55 };
                 p.assumptions = vec!["collision resistance of Blake3 (the only way a mutated object may verify is by being structurally equivalent)".into()];
                 p
             }
@@ -1254,7 +1254,7 @@ impl Engine for ProofX {
                     .map(|(m, k)| json!({"mode": "c18", "s": m, "bound": k, "qmax": qmax}))
                     .collect();
                 let mut p = Plan::new(cases, format!("proofx: every object of the C08 mutation grammar without the 'verifies' filter plus structural extremes (depth ∈ {{0,1,255,256,257,2^63,usize::MAX}}, 255..300 siblings, empty/duplicated/prefix-related path lists, key slices of length 0/3/len/256, operation lists empty/unsorted/duplicated/out-of-scope/all-keys), over every key set S of ≤{smax} keys; each public verifier entry point (PathProof::verify, confirm_*, verify_update, verify_multi_proof, confirm_*_with_index for every valid index, find_index_for, verify_multi_proof_update) is called under catch_unwind in an isolated child process with a timeout; any panic / abort / timeout is a violation, fingerprinted by (entry point, mutation class, panic class)."));
-                p.budget_s = if thorough { 1700 } else { 45 };
+                p.budget_s = if thorough { 1700 } else { 55 };
                 p.isolate = true;
                 p.case_timeout_s = 600;
                 p.timeout_is_violation = true;
